@@ -47,6 +47,7 @@ def gen_ops(rng, k, depth):
 
 class C06(Prop):
     id = 'C06'
+    extracted = True      # generator expressions / islice over chain.from_iterable regenerated from the current source (Extracted/EquivC06.lean)
     quick_cases = 2500
     thorough_cases = 40000
     quick_budget_s = 45
